@@ -278,6 +278,9 @@ def check_run(case):
             ("ins_code", ln.get("icode", ""), a.ins_code or ""),
         ]  # fmt: skip
         for field, got, want in checks:
+            if got != want and field == "res_seq" and len(str(want)) > 4:
+                res.bad("C08:overflow:res_seq", f"{tag}: residue number in the file {got!r}, in the model {want!r}")
+                break
             if got != want and field == "chain" and len(want) > 1:
                 # multi-character (mmCIF) chain id: does not fit the one-character chain column
                 res.bad("C08:overflow:chain_id", f"{tag}: chain in the file {got!r}, in the model {want!r}")
@@ -306,6 +309,8 @@ def check_run(case):
                 res.bad("C08:run:own-reader:count", f"io.read_pqr returns {len(own)} atoms for {len(A.pairs)} written")
             else:
                 for o, (ln, a) in zip(own, A.pairs):
+                    if len(str(a.res_seq)) > 4:
+                        continue  # known finding C08:overflow:res_seq (reported above)
                     if (o.name, o.res_name, o.res_seq, o.ins_code or "") != (a.name, a.res_name, a.res_seq, a.ins_code or "") or \
                             abs(o.x - a.x) > 5.1e-4 or abs(o.charge - (a.ffcharge or 0.0)) > 5.1e-5 or \
                             (keep and len(a.chain_id or "") <= 1 and (o.chain_id or "") != (a.chain_id or "")):
